@@ -46,7 +46,7 @@ CHECK = {
         real_vs_stub=C13_STUB, assumptions=C13_ASSUME,
         simulated_time="block heights are simulator events; the synctest fake clock is never advanced by the engine (no lnd timer matters here)",
         determinism="actor engine in synctest bubbles (one bubble and one world per execution); one notification at a time to quiescence, parked stub calls released in key order; "
-                    "all draws happen in the reference execution and are replayed from the recording; self-test: 400 runs (about 7600 executions) x 4 processes (GOMAXPROCS 1, 4, 16, 16) identical hashes",
+                    "all draws happen in the reference execution and are replayed from the recording; self-test: quick 1500 runs (26906 crash executions) and thorough 120 runs (5231 crash executions), each in two processes with GOMAXPROCS 1 and 16: identical hashes and counters; 400 runs x 4 processes (GOMAXPROCS 1, 4, 16, 16) identical",
     ),
 }
 
